@@ -1,14 +1,16 @@
 import CMacVerif.Model.HLLC
+import CMacVerif.Model.ExactFlux
 import CMacVerif.Inst.Float
 import CMacVerif.Util.Bits
 /-!
-Line-protocol driver for C05: the `Float` instantiation of the HLLC / vacuum models.
+Line-protocol driver for C05: the `Float` instantiation of the HLLC model, of the vacuum branches and
+of the complete `ExactRiemannSolver::solve_for_flux` (`Model/ExactFlux.lean` around C11's `solve`).
 
 ops (all doubles as decimal bit patterns):
 * `f|t|m|i|d  rhoL uLx uLy uLz PL rhoR uRx uRy uRz PR nx ny nz vfx vfy vfz gamma wx wy wz`
-    → `F <coarse> m px py pz e X <flag m px py pz e | none> #<branch>`
-* `x gamma rhoL uL PL rhoR uR PR dxdt`      (ExactRiemannSolver::solve, vacuum exits only)
-    → `X <flag rho u P | none> #<tag>`
+    → `F <coarse> m px py pz e X <flag m px py pz e> #<branch>`
+* `x gamma rhoL uL PL rhoR uR PR dxdt w`      (ExactRiemannSolver::solve)
+    → `X <flag rho u P> #<tag>`   (tag: vacuum sampler tag, or 50 + C11's sampling branch)
 * `sr|sl gamma rho u P a dxdt`, `sg gamma rhoL uL PL aL rhoR uR PR aR dxdt`  (private samplers)
     → `S E <flag rho u P> H <flag rho u P> #<tag>`
 -/
@@ -19,7 +21,14 @@ def dblMin : Float := Float.ofBits 0x0010000000000000
 /-- 2^-1024: largest double whose reciprocal is `inf` -/
 def ovfThr : Float := Float.ofBits 0x0004000000000000
 
+/-- bounds of the Newton loop (none in the C++) and of Brent's loop (`1e4` in the C++) -/
+def newtonFuel : Nat := 100000
+def brentFuel : Nat := 10000
+
 def fl (s : String) : Float := fOfBits (nat! s)
+
+/-- coverage tag of the exact solver: vacuum sampler tag (C11 shifts it by 100), else 50 + branch -/
+def xtag (br : Nat) : Nat := if br ≥ 100 then br - 100 else 50 + br
 
 def showFlux (f : Flux Float) : String :=
   s!"{showF f.m} {showF f.p.x} {showF f.p.y} {showF f.p.z} {showF f.e}"
@@ -40,23 +49,16 @@ def step (_ : Unit) : List String → Unit × String
       let n : V3 Float := ⟨fl nx, fl ny, fl nz⟩
       let vf : V3 Float := ⟨fl vfx, fl vfy, fl vfz⟩
       let h := HLLC.solveForFlux dblMin ovfThr (fl g) (fl rhoL) uL (fl pL) (fl rhoR) uR (fl pR) n vf
-      let x := solveForFluxIfVacuum ovfThr (fl g) (fl rhoL) uL (fl pL) (fl rhoR) uR (fl pR) n vf
-      let ff := faceFrame uL uR n vf
-      let xflag : Int := match solveIfVacuum ovfThr (fl g) (fl rhoL) ff.vL (fl pL) (fl rhoR) ff.vR (fl pR) 0.0 with
-        | some sm => sm.flag
-        | none => 9
-      let xs := match x with
-        | some fx => s!"{xflag} {showFlux fx}"
-        | none => "none"
-      let xb := match x with
-        | some fx => fx.br
-        | none => 50
+      let xr := ExactFlux.solveForFluxS ovfThr (fl g) newtonFuel brentFuel (fl rhoL) uL (fl pL) (fl rhoR) uR (fl pR) n vf
+      let x := xr.2
+      let xs1 := xr.1
+      let xs := s!"{xs1.flag} {showFlux x}"
+      let xb := xtag xs1.tag
       ((), s!"F {coarse h.br} {showFlux h} X {xs} #h{h.br}x{xb}")
     else ((), "bad-op")
   | ["x", g, rhoL, uL, pL, rhoR, uR, pR, dxdt, _] =>
-    match solveIfVacuum ovfThr (fl g) (fl rhoL) (fl uL) (fl pL) (fl rhoR) (fl uR) (fl pR) (fl dxdt) with
-    | some s => ((), s!"X {showSample s} #x{s.tag}")
-    | none => ((), "X none #x50")
+    let s := ExactFlux.solve1D ovfThr (fl g) newtonFuel brentFuel (fl rhoL) (fl uL) (fl pL) (fl rhoR) (fl uR) (fl pR) (fl dxdt)
+    ((), s!"X {showSample s} #x{xtag s.tag}")
   | ["sr", g, rho, u, p, a, dxdt] =>
     let G := effGamma (fl g)
     let e := sampleRightVacuum G (fl rho) (fl u) (fl p) (fl a) (fl dxdt)
